@@ -685,13 +685,16 @@ class SubFieldView(ArrayView):
                 f"value {np.min(value)} is negative, sub fields are unsigned"
             )
         value = np.asarray(value)
-        self.array[key] &= ~self.bit_mask
 
+        # everything is computed before anything is stored: an assignment that
+        # is refused (e.g. values that cannot be broadcast to the selection)
+        # must leave the field as it was
+        shifted = value << self.lsb
+        cleared = self.array[key] & ~self.bit_mask
         # This is not allowed without a casting="unsafe" argument
         # in Numpy 2.0
         # self.array[key] |= shifted
-        shifted = value << self.lsb
-        self.array[key] = np.bitwise_or(self.array[key], shifted, casting="unsafe")
+        self.array[key] = np.bitwise_or(cleared, shifted, casting="unsafe")
 
     def __getitem__(self, item):
         sliced = SubFieldView(self.array[item], int(self.bit_mask))
